@@ -87,6 +87,11 @@ def _setup(config, custom, n_grains, n_steps, frame=None):
     st = _real_stiffness()
     stiff = {}
     if custom:
+        # the record is used once with its built-in values and THEN edited in place (the documented way to customise
+        # it): anything a call leaves behind on the record (a memoised 4th-order tensor, say) must not survive the edit
+        m0 = minerals.Mineral(phase=P.olivine, fabric=core.MineralFabric.olivine_A, n_grains=1, fractions_init=sarr(np.array([R(1)], dtype=object)),
+                              orientations_init=sarr(np.array(np.eye(3).reshape(1, 3, 3), dtype=object)))
+        minerals.voigt_averages([m0], [P.olivine], [R(1)], st)
         st.olivine = _sym66("Col")
         st.enstatite = _sym66("Cen")
     stiff["olivine"], stiff["enstatite"] = sarr(st.olivine), sarr(st.enstatite)
@@ -443,6 +448,7 @@ def replay_generic(case):
         return want
 
     custom = minerals.StiffnessTensors()
+    pydrex.voigt_averages([mk(P.olivine, 3, 1, 1)], [P.olivine], [1.0], custom)  # used once with the built-in values, then edited in place
     for nm in ("olivine", "enstatite"):
         X = rng.normal(size=(6, 6))
         setattr(custom, nm, getattr(custom, nm) + 5 * (X + X.T))
